@@ -15,7 +15,10 @@ import (
 // genConc reads, from the bodies of the package's functions, the sequence of
 // synchronisation and shared-state actions (Model/Conc.v: act) and writes
 // Generated/Conc.v.  Shared state = package-level variables that are mutexes,
-// sync.Pools, or maps written somewhere outside their declaration.
+// sync.Pools, or variables of any other type (maps, slices, pointers, scalars,
+// structs; sync.Map / sync.Once / atomic.* excepted) written — as a whole,
+// through an index, a field or a pointer, or by ++/-- — somewhere outside their
+// declaration and the init functions.
 // A function is listed when it performs such an action itself or calls (by a
 // statically resolvable name) a function that does.  Calls through interfaces
 // or function values are not resolved (DESIGN §5: trusted base).
@@ -25,7 +28,8 @@ type concGen struct {
 	byName  map[string][]string      // bare name -> keys
 	mutexes map[string]bool
 	pools   map[string]bool
-	maps    map[string]bool
+	maps    map[string]bool // package-level variables other than mutexes, pools and self-synchronising types
+	topSpec map[*ast.ValueSpec]bool
 	mutable map[string]bool
 	rel     map[string]bool
 }
@@ -46,7 +50,7 @@ func recvName(fd *ast.FuncDecl) string {
 
 func genConc(repo, out string) {
 	g := &concGen{fset: token.NewFileSet(), funcs: map[string]*ast.FuncDecl{}, byName: map[string][]string{},
-		mutexes: map[string]bool{}, pools: map[string]bool{}, maps: map[string]bool{}, mutable: map[string]bool{}, rel: map[string]bool{}}
+		mutexes: map[string]bool{}, pools: map[string]bool{}, maps: map[string]bool{}, topSpec: map[*ast.ValueSpec]bool{}, mutable: map[string]bool{}, rel: map[string]bool{}}
 	files, _ := filepath.Glob(filepath.Join(repo, "*.go"))
 	sort.Strings(files)
 	var parsed []*ast.File
@@ -76,6 +80,7 @@ func genConc(repo, out string) {
 				}
 				for _, sp := range x.Specs {
 					vs := sp.(*ast.ValueSpec)
+					g.topSpec[vs] = true
 					for i, nm := range vs.Names {
 						ts := typeStr(vs.Type)
 						var val ast.Expr
@@ -88,7 +93,9 @@ func genConc(repo, out string) {
 							g.mutexes[nm.Name] = true
 						case strings.Contains(ts, "sync.Pool") || strings.HasPrefix(vstr, "sync.Pool"):
 							g.pools[nm.Name] = true
-						case strings.HasPrefix(ts, "map[") || strings.HasPrefix(vstr, "map["):
+						case strings.Contains(ts, "sync.Map") || strings.Contains(ts, "sync.Once") || strings.Contains(ts, "atomic.") || strings.Contains(vstr, "sync.Map") || strings.Contains(vstr, "atomic."):
+							// synchronise themselves
+						case nm.Name != "_":
 							g.maps[nm.Name] = true
 						}
 					}
@@ -115,24 +122,23 @@ func genConc(repo, out string) {
 		ast.Inspect(fd.Body, func(n ast.Node) bool {
 			switch x := n.(type) {
 			case *ast.AssignStmt:
+				if x.Tok == token.DEFINE {
+					break
+				}
 				for _, l := range x.Lhs {
-					if ix, ok := l.(*ast.IndexExpr); ok {
-						if id, ok := ix.X.(*ast.Ident); ok && g.maps[id.Name] {
-							g.mutable[id.Name] = true
-						}
+					if id := g.rootVar(l); id != "" {
+						g.mutable[id] = true
 					}
 				}
 			case *ast.CallExpr:
 				if id, ok := x.Fun.(*ast.Ident); ok && id.Name == "delete" && len(x.Args) > 0 {
-					if m, ok := x.Args[0].(*ast.Ident); ok && g.maps[m.Name] {
-						g.mutable[m.Name] = true
+					if m := g.rootVar(x.Args[0]); m != "" {
+						g.mutable[m] = true
 					}
 				}
 			case *ast.IncDecStmt:
-				if ix, ok := x.X.(*ast.IndexExpr); ok {
-					if id, ok := ix.X.(*ast.Ident); ok && g.maps[id.Name] {
-						g.mutable[id.Name] = true
-					}
+				if id := g.rootVar(x.X); id != "" {
+					g.mutable[id] = true
 				}
 			}
 			return true
@@ -174,7 +180,7 @@ func genConc(repo, out string) {
 	}
 	var b bytes.Buffer
 	b.WriteString("(* GENERATED by harness/cmd/gentables (go/ast) from the function bodies of /repo/*.go; do not edit.\n")
-	b.WriteString("   One action program per function that touches shared state (mutexes, sync.Pools, package-level maps\n")
+	b.WriteString("   One action program per function that touches shared state (mutexes, sync.Pools, package-level variables\n")
 	b.WriteString("   written after initialisation) or calls one that does. *)\n")
 	b.WriteString("From Coq Require Import String List.\nImport ListNotations.\nOpen Scope string_scope.\nFrom Mpath.Model Require Import Conc.\n\n")
 	b.WriteString("Definition conc_table : list (string * prog) := [\n")
@@ -206,6 +212,43 @@ func genConc(repo, out string) {
 	fmt.Fprintf(&b, "Definition conc_pools : list string := [%s].\n", strings.Join(px, "; "))
 	os.MkdirAll(out, 0o755)
 	writeIfChanged(filepath.Join(out, "Conc.v"), b.Bytes())
+}
+
+// rootVar: the package-level variable (not a mutex or pool) an assignable expression is rooted in, or "".
+// An identifier resolved by the parser to a local declaration is not one.
+func (g *concGen) rootVar(e ast.Expr) string {
+	for {
+		switch x := e.(type) {
+		case *ast.Ident:
+			if g.isPkgVar(x) {
+				return x.Name
+			}
+			return ""
+		case *ast.IndexExpr:
+			e = x.X
+		case *ast.SelectorExpr:
+			e = x.X
+		case *ast.StarExpr:
+			e = x.X
+		case *ast.ParenExpr:
+			e = x.X
+		case *ast.SliceExpr:
+			e = x.X
+		default:
+			return ""
+		}
+	}
+}
+
+func (g *concGen) isPkgVar(id *ast.Ident) bool {
+	if !g.maps[id.Name] {
+		return false
+	}
+	if id.Obj == nil {
+		return true // left to the package scope by the parser
+	}
+	vs, ok := id.Obj.Decl.(*ast.ValueSpec)
+	return ok && g.topSpec[vs]
 }
 
 // ---- action trees
@@ -295,10 +338,10 @@ func (g *concGen) stmt(s ast.Stmt, rel map[string]bool) []actT {
 		for _, l := range x.Lhs {
 			if ix, ok := l.(*ast.IndexExpr); ok {
 				out = append(out, g.expr(ix.Index, rel)...)
-				if id, ok := ix.X.(*ast.Ident); ok && g.mutable[id.Name] {
-					out = append(out, actT{kind: "Write", arg: id.Name})
-					continue
-				}
+			}
+			if id := g.rootVar(l); id != "" && g.mutable[id] && x.Tok != token.DEFINE {
+				out = append(out, actT{kind: "Write", arg: id})
+				continue
 			}
 			if _, ok := l.(*ast.Ident); !ok {
 				out = append(out, g.expr(l, rel)...)
@@ -393,6 +436,9 @@ func (g *concGen) stmt(s ast.Stmt, rel map[string]bool) []actT {
 	case *ast.GoStmt:
 		return g.expr(x.Call, rel)
 	case *ast.IncDecStmt:
+		if id := g.rootVar(x.X); id != "" && g.mutable[id] {
+			return []actT{{kind: "Write", arg: id}}
+		}
 		return g.expr(x.X, rel)
 	}
 	return nil
@@ -470,6 +516,11 @@ func (g *concGen) expr(e ast.Expr, rel map[string]bool) []actT {
 					}
 				}
 			case *ast.Ident:
+				if f.Name == "delete" && len(x.Args) > 0 {
+					if m := g.rootVar(x.Args[0]); m != "" && g.mutable[m] {
+						out = append(out, actT{kind: "Write", arg: m})
+					}
+				}
 				if rel != nil && rel[f.Name] {
 					out = append(out, actT{kind: "Call", arg: f.Name})
 				}
@@ -480,14 +531,14 @@ func (g *concGen) expr(e ast.Expr, rel map[string]bool) []actT {
 			}
 		case *ast.IndexExpr:
 			walk(x.Index)
-			if id, ok := x.X.(*ast.Ident); ok && g.mutable[id.Name] {
+			if id, ok := x.X.(*ast.Ident); ok && g.mutable[id.Name] && g.isPkgVar(id) {
 				out = append(out, actT{kind: "Read", arg: id.Name})
 				return
 			}
 			walk(x.X)
 		case *ast.Ident:
-			// a bare reference to a mutable map (len(m), range m, passing m) is a read
-			if g.mutable[x.Name] {
+			// a bare reference to a mutable variable (len(m), range m, passing m) is a read
+			if g.mutable[x.Name] && g.isPkgVar(x) {
 				out = append(out, actT{kind: "Read", arg: x.Name})
 			}
 		case *ast.BinaryExpr:
